@@ -610,6 +610,13 @@ pub assume_specification<T, A: std::alloc::Allocator> [VecDeque::<T, A>::swap_re
         None => index >= old(v)@.len() && final(v)@ == old(v)@,
     };
 
+// Interference projection (C15 / C16 under concurrency): acquiring a lock (or touching the DashMap) first lets the
+// guarded data change arbitrarily -- what other threads may have done while this thread did not hold the lock.
+#[verifier::external_body]
+pub fn havoc_mut<'a, T>(x: &'a mut T) -> (r: &'a mut T) { x }
+#[verifier::external_body]
+pub fn havoc_shared<'a, T>(x: &'a mut T) -> (r: &'a T) { x }
+
 // R4 helpers: assumed contracts of the std iterator adapters the code uses
 #[verifier::external_body]
 pub fn vd_position_raw(o: &VecDeque<String>, key: &String) -> (r: Option<usize>)
